@@ -8,7 +8,7 @@ from . import _w5ts as W
 
 ID = 'C12'
 TITLE = 'df_fillna/nona fill or drop exactly the missing cells, arrays and pandas alike'
-LEAN_FILES = ['Basic', 'TSBasic', 'Fill', 'FillDriver', 'FillLemmas', 'FillIndep', 'FillRows', 'C12']
+LEAN_FILES = ['Basic', 'TSBasic', 'Fill', 'FillDriver', 'FillAlias', 'FillLemmas', 'FillIndep', 'FillRows', 'FillEdge', 'FillAliasLemmas', 'C12']
 RULE = ('distinct protocol lines (object, method list, limit) on which the implementation returned a value and the input '
         'holds at least one NaN and one non-NaN cell')
 TRUSTED = ['correspondence harness (pv.engine, pv.proto, pv.props._w5ts) and generators of pv.props.c12',
@@ -18,7 +18,7 @@ ASSUMPTIONS = ['pandas: ffill/bfill(limit), fillna(value, limit), boolean-mask s
                'a Series is modelled as a one-column frame; a numpy array as column values behind a RangeIndex',
                'float values are exact multiples of 1/4; dtype changes, axis=1, interpolation methods, pad, date methods, '
                'nona(value != nan) are not modelled; limit=0 (outside the quantifier) is not generated',
-               'input immutability is observed by snapshot on the implementation, not proved']
+               'input immutability: proved on the object store PygModel/FillAlias.lean under the assumption, observed by snapshot on every line, that pandas ffill / fillna / bfill / boolean selection / .loc / concat return new objects']
 S = 4
 METHODS = ['ffill', 'bfill', 'backfill', 'ffill_na', 'ffill_0', 'fnna', 'nona', 'c:0', 'c:6', 'c:-3', 'c:4']
 VALS = [1.0, 2.0, 0.0, -1.5, 0.25, 3.0, 7.75, -4.0]
